@@ -53,6 +53,42 @@ def extent_case(draw):
     return dict(system=sysd, rows=rows, entry=draw(st.sampled_from(["function", "estimator"])), one_d=draw(st.booleans()))
 
 
+@st.composite
+def proportional_case(draw):
+    """two sources with proportional (or identical) captures, e.g. two LEDs of the same model: some square sub-systems are
+    exactly singular, the solution polytope and its per-source extents are as well defined as ever"""
+    sysd = dict(draw(under_system()))
+    A = np.asarray(sysd["A"], dtype=float).copy()
+    n = A.shape[1]
+    j1 = draw(st.integers(0, n - 1))
+    j2 = draw(st.integers(0, n - 2))
+    j2 = j2 if j2 < j1 else j2 + 1
+    A[:, j2] = A[:, j1] * draw(st.sampled_from([1.0, 1.0, 2.0, 0.5, 0.25]))
+    if np.linalg.matrix_rank(A) < A.shape[0]:
+        A[:, j2] = np.asarray(sysd["A"], dtype=float)[:, j2]        # (keeps full row rank; then merely a plain system)
+    sysd["A"] = A.tolist()
+    rows = draw(target_rows(sysd, ["interior", "interior", "random"], nrows=(1, 3)))
+    return dict(system=sysd, rows=rows, entry=draw(st.sampled_from(["function", "estimator"])), one_d=draw(st.booleans()), pair=[j1, j2])
+
+
+def body_proportional(case):
+    sv = Sys(case["system"])
+    rows = []
+    for r in case["rows"]:
+        t = lp_margin(sv.Ap, sv.basep, sv.lb, sv.ub, np.asarray(r["b"], dtype=float))
+        if t is not None and t >= 1e-6:
+            rows.append(dict(r, kind="interior"))
+    if not rows:
+        return ["no-in-gamut-row"]
+    labs = body_extent(dict(case, rows=rows))
+    labs += [l for l in body_spaced(dict(case, rows=rows, n=3)) if l.startswith("n")]      # spaced solutions on the same system
+    j1, j2 = case["pair"]
+    a1, a2 = sv.Ap[:, j1], sv.Ap[:, j2]
+    if np.linalg.matrix_rank(np.stack([a1, a2])) == 1:
+        labs.append("nt:proportional-sources")
+    return labs
+
+
 def body_extent(case):
     sv = Sys(case["system"])
     labs = sv.labels() + [f"surplus{sv.n - sv.m}", f"entry:{case['entry']}"]
@@ -238,6 +274,7 @@ PROP = Prop(
                  "a boundary target may be rejected as out-of-gamut only if its LP margin is below 1e-9"],
     predicates={"boundary_target": pred_boundary, "surplus_ge_2": pred_surplus2},
     subs=[
+        Sub("proportional_sources", proportional_case(), body_proportional, quick=300, thorough=15000, quick_shards=4, min_nt_share=0.3),
         Sub("extent", extent_case(), body_extent, quick=600, thorough=30000, quick_shards=4, min_nt_share=0.25, require_labels=("interior",)),
         Sub("spaced", spaced_case(), body_spaced, quick=300, thorough=15000, quick_shards=4, min_nt_share=0.25),
         Sub("fitted_between", fitted_case(), body_fitted, quick=160, thorough=8000, quick_shards=4, min_nt_share=0.25),
